@@ -19,7 +19,7 @@ READERS = {"srt": SRTReader, "webvtt": WebVTTReader, "microdvd": MicroDVDReader,
            "sami": SAMIReader, "scc": SCCReader}
 MODULES = ["pycaption.base", "pycaption.srt", "pycaption.webvtt", "pycaption.microdvd", "pycaption.sami",
            "pycaption.dfxp.base", "pycaption.scc", "pycaption.scc.specialized_collections",
-           "pycaption.scc.state_machines", "pycaption.geometry"]
+           "pycaption.scc.state_machines", "pycaption.geometry", "pycaption.scc.constants", "pycaption.utils", "pycaption.exceptions"]
 
 
 def frame_obligations(g):
@@ -84,6 +84,10 @@ def bounded(ctx, b):
                     c0 = first.get_captions(lang)[0]
                     c0.style["injected"] = True
                     c0.nodes.append(CaptionNode.create_text("injected"))
+                    # ... nor does editing the layout objects hanging off it (objects must not be shared between reads)
+                    for lay in [c0.layout_info] + [n_.layout_info for n_ in c0.nodes]:
+                        if lay is not None:
+                            lay.origin, lay.extent, lay.alignment = None, None, None
                     first.get_captions(lang).append(copy.deepcopy(c0))
                 # unrelated activity in the process
                 for Wr in (SRTWriter, DFXPWriter):
